@@ -340,6 +340,43 @@ def unrestricted_ramps(M, rec, rng, g, reps):
                           dict(case, nonfinite=bad[:5]))
 
 
+def almost_empty_roads(M, rec, rng, g, reps):
+    """A merge whose entering links are almost - not exactly - empty (a closed-loop run through a zero-demand night ends up at
+    subnormal densities, 5e-324 ... 1e-310, never at an exact zero): the total inflow is positive, no 0/0 is involved, every
+    output is finite (NumPy engine)."""
+    import copy
+
+    NE, CE = drive.engines(M)
+    for it in range(reps):
+        desc = copy.deepcopy(g.network(("merge", "crossing", "merge", "random")[it % 4])[1])
+        ins, outs, org, dst = R.topology(desc)
+        merges = [n_ for n_ in desc["nodes"] if len(ins[n_]) >= 2 and outs[n_]]
+        if not merges:
+            continue
+        pars = g.pars()
+        kw = drive.step_pars(pars)
+        _, vals = g.values(desc, "interior", allow_inf=False)
+        tiny = rng.choice((5e-324, 1e-320, 3e-312, 2e-309))
+        for n_ in merges:
+            for l_ in ins[n_]:
+                vals[l_["id"]]["rho"] = [tiny * rng.choice((1, 2, 3)) for _ in vals[l_["id"]]["rho"]]
+        if R.is_singular(desc, vals):
+            continue
+        case = {"desc": desc, "pars": pars, "vals": vals}
+        built = D.build(M, desc)
+        rec.count("networks_with_almost_empty_links_entering_a_merge")
+        try:
+            built.net.step(init_conditions=drive.np_init(built, vals, "vec1"), engine=NE(), **kw)
+            bad = _nonfinite(drive.read_next(built))
+        except Exception as e:
+            _exc(rec, "step", "numpy-user [subnormal densities]", e, case)
+            continue
+        rec.count("finite_checks")
+        if bad:
+            rec.violation(f"{PROP}:non-finite output for finite admissible inputs (numpy-user, almost empty links entering a merge) at {_where(desc, bad[0])}",
+                          dict(case, nonfinite=bad[:5]))
+
+
 def run(M, rec, tier, seed, k, n):
     W.USER_KINDS["prob"] = 0.12  # user-defined origin / link kinds (README "Extensions")
     np.seterr(all="ignore")
@@ -386,6 +423,7 @@ def run(M, rec, tier, seed, k, n):
     rec.sample({"example_network": desc})
     if not child:
         unrestricted_ramps(M, rec, rng, g, 24 if tier == "quick" else 200)
+        almost_empty_roads(M, rec, rng, g, 24 if tier == "quick" else 200)
 
 
     if k == 0 and not child:
